@@ -329,10 +329,10 @@ theorem check_message_eq (b : Backend σ F) (out : List TagCall) (ctx : Ctx) (ms
                                 · subst hp1
                                   cases f0 <;> cases f1 <;> simp <;> (generalize b.len _ = x; generalize b.len _ = y; by_cases h : x = y <;> simp [h])
                                 · rcases pp with _ | ⟨x, _ | ⟨y, _ | ⟨z, t⟩⟩⟩
-                                  · simp
-                                  · simp [hp1]
-                                  · by_cases hx : x = 0 <;> simp [PyKit.listGet, hx]
-                                  · simp
+                                  · simp +arith
+                                  · simp +arith [hp1]
+                                  · by_cases hx : x = 0 <;> simp +arith [PyKit.listGet, hx]
+                                  · simp +arith
                         cases pluralPlans b ctx msg fl f0 f1 (q :: pre) (sortBy keyLt msg.msgstrPlural) with
                         | error e => rfl
                         | ok r =>
